@@ -113,10 +113,10 @@ def dep_cone(vfile):
             continue
         seen.add(f)
         src = strip_comments(open(os.path.join(COQ, f)).read())
-        for m in re.finditer(r"From\s+Okv\s+Require\s+(?:Import|Export)?\s*([^.]*(?:\.[A-Za-z_][^.\s]*)*)\.", src):
+        for m in re.finditer(r"From\s+Okv\s+Require\s+(?:Import\s+|Export\s+)?(.*?)\.(?=\s|$)", src, re.S):
             for mod in m.group(1).split():
                 todo.append(mod.replace(".", "/") + ".v")
-        for m in re.finditer(r"Require\s+(?:Import|Export)?\s+((?:Okv\.[\w.]+\s*)+)\.", src):
+        for m in re.finditer(r"(?<!From Okv )Require\s+(?:Import\s+|Export\s+)?((?:Okv\.[\w.]+\s*)+)\.(?=\s|$)", src, re.S):
             for mod in m.group(1).split():
                 todo.append(mod[len("Okv."):].replace(".", "/") + ".v")
     return sorted(seen)
